@@ -300,9 +300,14 @@ fn run_once(rc: RunCase, port: u16, chunk_seed: u64) -> String {
         drop(keep_tx);
         let _ = res_tx.send(line);
     });
-    match res_rx.recv_timeout(Duration::from_secs(40)) {
+    // a run that does not end is a violation; after three of them in a shard the verdict is settled and later cases get a shorter
+    // leash, so that a change which makes every run hang does not cost 40 s per case
+    static HANGS: std::sync::atomic::AtomicUsize = std::sync::atomic::AtomicUsize::new(0);
+    let leash = if HANGS.load(std::sync::atomic::Ordering::Relaxed) >= 3 { 6 } else { 40 };
+    match res_rx.recv_timeout(Duration::from_secs(leash)) {
         Ok(s) => s,
         Err(_) => {
+            HANGS.fetch_add(1, std::sync::atomic::Ordering::Relaxed);
             // the run did not end: get the thread out of the loop (a stop line on its own) so that it does not
             // keep a core busy for the rest of the shard; the case is reported as a hang
             for _ in 0..3 {
